@@ -49,6 +49,9 @@ type Config struct {
 	InjectedFields              map[string][]Injected `json:"injected_fields,omitempty"`
 	ImportPathOverrides         map[string]string     `json:"import_path_overrides,omitempty"`
 	CustomTypes                 map[string]string     `json:"custom_types,omitempty"`
+	// FlowLists is not an option of the plugin: it makes Render write the list options in YAML flow style
+	// (`key: ["a", "b"]`, everything on one line) instead of block style.
+	FlowLists bool `json:"flow_lists,omitempty"`
 }
 
 // Clone deep-copies a config.
@@ -191,7 +194,13 @@ func (c Config) Render(split map[string]Channel, order Order) Rendered {
 			continue
 		}
 		if ch == ChYAML || ch == ChBoth {
-			if isList {
+			if isList && c.FlowLists {
+				var items []string
+				for _, s := range permuteStrings(order, "yaml:"+d.YAML, list) {
+					items = append(items, q(s))
+				}
+				secs = append(secs, section{key: d.YAML, flow: "[" + strings.Join(items, ", ") + "]"})
+			} else if isList {
 				var body []string
 				for _, s := range permuteStrings(order, "yaml:"+d.YAML, list) {
 					body = append(body, "  - "+q(s))
